@@ -1,5 +1,7 @@
 #![allow(dead_code)]
 use parity_scale_codec::{Compact, Decode, Encode};
-#[derive(parity_scale_codec::CompactAs)]
-pub struct T { #[codec(skip)] a: u32 }
+#[derive(Encode, Decode)]
+pub enum T {
+	V0 = 256,
+}
 fn main() {}
